@@ -768,6 +768,8 @@ Section preserve.
 End preserve.
 
 (* ------------------------------------------------------------------ every step of the heuristic-driven system *)
+Local Arguments exec : simpl never.
+
 Section system.
   Context (J : job) (E : env) (K : list (gset task)).
   Hypothesis wf_nout : ∀ t, is_task J t → 1 ≤ nout J t.
@@ -776,48 +778,39 @@ Section system.
   Lemma assign_seq_inv asg : ∀ s s', Inv J E s → assign_seq J E s asg = Next s' → Inv J E s'.
   Proof.
     induction asg as [|[[w t] x] asg IH]; intros s s' Hinv; simpl; [by intros [= <-]|].
-    pose proof (exec_inv J E wf_nout s (LAssign w t x) Hinv) as Hs. simpl in Hs.
-    destruct (assign_c J E (ctl s) w t x) as [[c h]| |e|e]; try done.
-    case_bool_decide; [done|]. by apply IH.
+    pose proof (exec_inv J E wf_nout s (LAssign w t x) Hinv) as Hs.
+    destruct (exec J E s (LAssign w t x)) as [[s1 cm]| |e|e]; try done. by apply IH.
   Qed.
 
   Theorem hexec_inv s hs hl s' hs' :
     Inv J E s → HInv E K s hs → hexec J E (s, hs) hl = Next (s', hs') → Inv J E s' ∧ HInv E K s' hs'.
   Proof.
-    intros Hinv Hh. destruct hl as [o srcs|l]; simpl.
+    intros Hinv Hh. destruct hl as [o srcs|l]; [simpl|].
     - destruct (has_computable (ctl s)).
       + intros Hx. apply rbind_Next in Hx as ([asg hs1] & Hha & Hx). simpl in Hx.
         case_bool_decide as Hlen; [|done]. apply rbind_Next in Hx as (s1 & Hseq & [= <- <-]).
-        destruct (heur_assign_spec J E K o hs (idle (ctl s)) asg hs1 Hha) as (Hcs & Hsound & Hm).
+        destruct (heur_assign_spec J E K wf_nout Hwk o hs (idle (ctl s)) asg hs1 Hha) as (Hcs & Hsound & Hm).
         destruct hs as [cs m]. destruct hs1 as [cs1 m1]. simpl in *. subst cs1.
         destruct (hinv_assign_seq J E K wf_nout Hwk asg srcs s cs (idle (ctl s)) m s1 Hlen Hinv Hh) as [Hinv1 Hh1]; [|done|].
         { intros j w t Hin. destruct (Hsound _ _ _ Hin) as (c & Hc & Ht). exists c. split; [done|].
           by apply (hi_comp Hh j c t Hc) in Ht as [_ ?]. }
-        split; [done|]. apply (hinv_h2c J E K s1 _ m m1 Hh1). intros h. destruct (Hm h) as [?|(i & Hi & ?)]; [by left|].
+        split; [done|]. apply (hinv_h2c E K s1 _ m m1 Hh1). intros h. destruct (Hm h) as [?|(i & Hi & ?)]; [by left|].
         right. exists i. split; [|done].
         by rewrite (cs_le_length _ _ (apply_asg_le asg {| a_cs := cs; a_idle := idle (ctl s) |})).
       + case_bool_decide; [|done]. intros [= <- <-]. done.
-    - destruct l as [w t x| |ev|w i|x|x|x].
+    - assert (Hframe : ∀ l', frame_label l' → hexec J E (s, hs) (HStep l') = Next (s', hs') → Inv J E s' ∧ HInv E K s' hs').
+      { intros l' Hl Hx. pose proof (exec_inv J E wf_nout s l' Hinv) as Hs.
+        assert (Hx' : match exec J E s l' with Next (s1, _) => Next (s1, hs) | Disabled => Disabled
+                      | Crash e => Crash e | Fail e => Fail e end = Next (s', hs')).
+        { destruct l'; simpl in Hx; try done; exact Hx. }
+        destruct (exec J E s l') as [[s1 cm]| |e|e] eqn:Hex; try done. injection Hx' as <- <-. split; [done|].
+        destruct (frame_fields J E s l' _ _ Hl Hex) as (? & ? & ? & ?). by apply (hinv_frame E K s s1 hs). }
+      destruct l as [w t x| |ev|w i|x|x|x]; try (by apply Hframe); simpl.
       + done.
-      + pose proof (exec_inv J E wf_nout s LFlush Hinv) as Hs.
-        destruct (exec J E s LFlush) as [[s1 cm]| |e|e] eqn:Hex; try done. intros [= <- <-]. split; [done|].
-        destruct (frame_fields _ _ _ _ _ _ I Hex) as (? & ? & ? & ?). by apply (hinv_frame J E K s s1 hs).
       + pose proof (exec_inv J E wf_nout s (LDeliver ev) Hinv) as Hs.
         destruct (exec J E s (LDeliver ev)) as [[s1 cm]| |e|e] eqn:Hex; try done.
-        intros Hx. apply rbind_Next in Hx as (hs1 & Hn & [= <- <-]). split; [done|].
-        by apply (hinv_notify J E K Hwk s hs ev s1 cm hs1).
-      + pose proof (exec_inv J E wf_nout s (LPublish w i) Hinv) as Hs.
-        destruct (exec J E s (LPublish w i)) as [[s1 cm]| |e|e] eqn:Hex; try done. intros [= <- <-]. split; [done|].
-        destruct (frame_fields _ _ _ _ _ _ I Hex) as (? & ? & ? & ?). by apply (hinv_frame J E K s s1 hs).
-      + pose proof (exec_inv J E wf_nout s (LXfer x) Hinv) as Hs.
-        destruct (exec J E s (LXfer x)) as [[s1 cm]| |e|e] eqn:Hex; try done. intros [= <- <-]. split; [done|].
-        destruct (frame_fields _ _ _ _ _ _ I Hex) as (? & ? & ? & ?). by apply (hinv_frame J E K s s1 hs).
-      + pose proof (exec_inv J E wf_nout s (LFetch x) Hinv) as Hs.
-        destruct (exec J E s (LFetch x)) as [[s1 cm]| |e|e] eqn:Hex; try done. intros [= <- <-]. split; [done|].
-        destruct (frame_fields _ _ _ _ _ _ I Hex) as (? & ? & ? & ?). by apply (hinv_frame J E K s s1 hs).
-      + pose proof (exec_inv J E wf_nout s (LPurge x) Hinv) as Hs.
-        destruct (exec J E s (LPurge x)) as [[s1 cm]| |e|e] eqn:Hex; try done. intros [= <- <-]. split; [done|].
-        destruct (frame_fields _ _ _ _ _ _ I Hex) as (? & ? & ? & ?). by apply (hinv_frame J E K s s1 hs).
+        intros Hx. apply rbind_Next in Hx as (hs1 & Hn & Heq). injection Heq as <- <-. split; [done|].
+        by apply (hinv_notify J E K wf_nout Hwk s hs ev s1 cm hs1).
   Qed.
 
   Theorem hrun_inv ls : ∀ s hs s' hs',
@@ -857,12 +850,8 @@ Section system.
         intros Hot. apply bool_decide_eq_true in Hhc.
         by apply (heur_assign_nonempty J E K rank s hs o [] hs' Hdag Hwk Hfe Hinv Hh Hio Hot Hhc Hha).
       + destruct srcs as [|x srcs]; [done|]. simpl in Hseq.
-        destruct (assign_c J E (ctl s) w t x) as [[c h]| |e|e] eqn:Ha; try done.
-        case_bool_decide as Hwq; [done|].
-        match type of Hseq with assign_seq _ _ ?s1 _ = _ => set (s1' := s1) in * end.
-        assert (Hex : ∃ cm, exec J E s (LAssign w t x) = Next (s1', cm)).
-        { simpl. rewrite Ha. rewrite bool_decide_eq_false_2 by done. eauto. }
-        destruct Hex as [cm Hex]. destruct (assign_fields _ _ _ _ _ _ _ _ Hex) as (_ & _ & _ & Eo & _).
+        destruct (exec J E s (LAssign w t x)) as [[s1' cm]| |e|e] eqn:Hex; try done.
+        destruct (assign_fields _ _ _ _ _ _ _ _ Hex) as (_ & _ & _ & Eo & _).
         assert (Ht : t ∈ ong (ctl s') w).
         { apply (assign_seq_ong _ _ _ _ _ Hseq). rewrite Eo. destruct (decide (w = w)); [set_solver|done]. }
         intros Hot. assert (t ∈ ongoing_total (ctl s')) as Hin by (apply ongoing_total_spec; eauto).
